@@ -10,7 +10,7 @@ import translate
 from props import c08
 from vlib import driver_run, esc_field, harness_run, sexp_parse, sexp_str
 
-THM_MODULES = ["SslModel.Thm.C14"]
+THM_MODULES = ["SslModel.Thm.C14", "SslModel.Thm.C14Gen"]
 TRANSLATE_PARTS = ["pratt", "doc", "binop", "grammar"]
 
 POSTFIX_TEXT = {"type_filter": "? int", "at": "[0]", "slicing": "[0:1]", "function_call": "()",
